@@ -305,8 +305,10 @@ struct SetDriver : DriverBase<SetDriver<Set, K, N, MCmp, Which, Transparent>> {
                 auto const& ma = model[x];
                 auto const& mb = model[y];
                 // std::set compares element-wise with == and <, not with the comparator
-                std::vector<int> va(ma.begin(), ma.end());
-                std::vector<int> vb(mb.begin(), mb.end());
+                // (the relational operators compare the ELEMENTS with their own operators, not with the set's comparator)
+                using RelT = std::conditional_t<std::is_same_v<K, sim::Coarse>, sim::Coarse, int>;
+                std::vector<RelT> va(ma.begin(), ma.end());
+                std::vector<RelT> vb(mb.begin(), mb.end());
                 bool const w[6] = {va == vb, va != vb, va < vb, va <= vb, va > vb, va >= vb};
                 static char const* const names[6] = {"==", "!=", "<", "<=", ">", ">="};
                 for (int k = 0; k < 6; ++k) {
@@ -627,10 +629,35 @@ struct SetDriver : DriverBase<SetDriver<Set, K, N, MCmp, Which, Transparent>> {
             if constexpr (isFlat) {
                 int const parity = key % 2;
                 ctx.log.kv("parity", parity);
-                size_t ret = 0;
-                bool ok    = call(a, false, false, [&] { ret = etl::erase_if(v, [parity](K const& x) { return value_of(x) % 2 == parity; }); });
+                size_t ret      = 0;
+                int predCalls   = 0;
+                bool sawForeign = false;
+                int const quota = st.k[0] % 3 == 1 ? 1 + static_cast<int>(st.k[1] % 2) : 1000; // a predicate with state
+                bool ok         = call(a, false, false, [&] {
+                    int q = quota; // the state lives outside the predicate: algorithms may copy their function objects
+                    ret   = etl::erase_if(v, [parity, &predCalls, &sawForeign, &q](K const& x) {
+                        ++predCalls;
+                        long long const xv = value_of(x);
+                        sawForeign         = sawForeign || xv == kMovedFrom || xv == -4242 || xv == -9999;
+                        if (xv % 2 == parity && q > 0) {
+                            --q;
+                            return true;
+                        }
+                        return false;
+                    });
+                });
                 if (ok) {
-                    size_t const want = std::erase_if(m, [parity](int x) { return x % 2 == parity; });
+                    size_t const before = m.size();
+                    size_t const want   = std::erase_if(m, [parity, q = quota](int x) mutable {
+                        if (x % 2 == parity && q > 0) {
+                            --q;
+                            return true;
+                        }
+                        return false;
+                    });
+                    if (predCalls != static_cast<int>(before) || sawForeign) {
+                        ctx.violation("C09", "diff:erase_if:predicate-calls", "erase_if showed its predicate " + std::to_string(predCalls) + " keys for " + std::to_string(before) + (sawForeign ? " (one of them moved-from or destroyed)" : ""));
+                    }
                     if (ret != want) {
                         ctx.violation("C09", "diff:erase_if:returned-count", "erase_if returned " + std::to_string(ret) + " want " + std::to_string(want));
                     }
@@ -1083,6 +1110,11 @@ struct MultisetDriver : DriverBase<MultisetDriver<K, N, Cmp, MCmp>> {
 // ================================================================================================ stateful comparator
 // flat_set keeps a comparator OBJECT: two sets of the same type can order their keys differently. Every operation that
 // moves keys between sets (swap, copy / move assignment, copy construction) has to move the comparator with them.
+// the model-side comparator for Coarse keys (the model stores plain ints)
+struct CoarseLessInt {
+    auto operator()(int a, int b) const -> bool { return a / 2 < b / 2; }
+};
+
 struct DirCmp {
     bool desc = false;
 
@@ -1393,47 +1425,7 @@ struct FlatCmpDriver : DriverBase<FlatCmpDriver> {
 // ================================================================================================ emplace arguments
 // A key type for which Key(a, b) and Key{a, b} mean different things (like std::vector): emplace must construct the key
 // from its arguments with parentheses, as std::set / std::flat_set do.
-struct BagKey {
-    int n    = 0;
-    int e[4] = {0, 0, 0, 0};
-
-    BagKey() = default;
-
-    explicit BagKey(int count) // count zeros
-        : n(count < 4 ? count : 4)
-    {
-    }
-
-    BagKey(int count, int value) // count copies of value
-        : n(count < 4 ? count : 4)
-    {
-        for (int i = 0; i < n; ++i) {
-            e[i] = value;
-        }
-    }
-
-    BagKey(std::initializer_list<int> il) // the listed values
-    {
-        for (int x : il) {
-            if (n < 4) {
-                e[n++] = x;
-            }
-        }
-    }
-
-    [[nodiscard]] auto code() const -> long long
-    {
-        long long c = n;
-        for (int i = 0; i < 4; ++i) {
-            c = c * 16 + e[i];
-        }
-        return c;
-    }
-
-    friend auto operator<(BagKey const& a, BagKey const& b) -> bool { return a.code() < b.code(); }
-
-    friend auto operator==(BagKey const& a, BagKey const& b) -> bool { return a.code() == b.code(); }
-};
+using sim::BagKey;
 
 template <bool Flat>
 struct BagSetDriver : DriverBase<BagSetDriver<Flat>> {
@@ -1659,6 +1651,13 @@ void register_set_0()
     add_plain<FlatCmpDriver>("flat_set<int,4,stateful-comparator>");
     add_plain<BagSetDriver<false>>("static_set<BagKey,4>");
     add_plain<BagSetDriver<true>>("flat_set<BagKey,4>");
+    // keys whose equivalence under the comparator is coarser than operator== (2k and 2k+1 are one key for the set):
+    // every lookup, insertion and erasure goes by the comparator, never by ==
+    {
+        using K = sim::Coarse;
+        add_set<etl::static_set<K, 4, etl::less<K>>, K, 4, CoarseLessInt, SK::static_set, false>("static_set<Coarse,4,less>");
+        add_set<etl::flat_set<K, etl::static_vector<K, 4>, etl::less<K>>, K, 4, CoarseLessInt, SK::flat_set, false>("flat_set<Coarse,4,less>");
+    }
     // keys that own library objects themselves (see sim/composite.hpp)
 #if defined(__clang__)
     // (clang 14 cannot compile them: empty placeholders keep the seed -> scenario mapping identical for both compilers)
